@@ -195,6 +195,26 @@ def build_world(case, order: str, rng):
         record.create_regions()
         for g in reversed(genes):
             record.add_cds_feature(g)
+    elif order == "late-areas":
+        # regions exist already when further areas arrive (without re-creating regions), genes come last or in between
+        pending = list(genes)
+        rng.shuffle(pending)
+        areas = [("p", p) for p in protos] + [("s", s) for s in subs]
+        rng.shuffle(areas)
+        cut = rng.randrange(0, len(areas) + 1)
+        for kind, make in areas[:cut]:
+            (record.add_protocluster if kind == "p" else record.add_subregion)(make())
+        record.create_candidate_clusters()
+        record.create_regions()
+        for _ in range(rng.randrange(0, 3)):
+            if pending:
+                record.add_cds_feature(pending.pop())
+        for kind, make in areas[cut:]:
+            (record.add_protocluster if kind == "p" else record.add_subregion)(make())
+            if pending and rng.random() < 0.3:
+                record.add_cds_feature(pending.pop())
+        while pending:
+            record.add_cds_feature(pending.pop())
     else:
         pending = list(genes)
         rng.shuffle(pending)
@@ -264,7 +284,7 @@ def gen_world(rng):
 
 def run_world(ctx, case, index=0):
     dumps = {}
-    for order in ("genes-first", "areas-first", "interleaved"):
+    for order in ("genes-first", "areas-first", "interleaved", "late-areas"):
         try:
             record = build_world(case, order, ctx.rng("order", index))
         except Exception as err:  # pylint: disable=broad-except
